@@ -1355,8 +1355,17 @@ def scenario_script(i, x, ent, rej=(), attrs=None, flags=None, malformed=(), res
     # release the pending comment buffers as well
     contents = {f: "[broken  # trailing\nK=1\n" if (f[0] + f[1]) % 2 else "# pending comment\n# second line\n[broken\nK=1\n" for f in malformed}
     s, paths = materialise(t, shape, R, contents=contents, pd=pd_map(x, shape, R))
-    attrs = attrs or {}
+    attrs = attrs if attrs is not None else {}
     extra = []
+    # a directory whose permission bits are "bad" is bad for every file in it: the attribute is spread over the files that share
+    # the directory of a marked one (the caller's dict is completed in place, the events are built from it)
+    baddirs = {os.path.dirname(p) for p, f in paths.items() if (tuple(attrs.get(f, ())) + ("ok",) * 5)[4] == "bad"}
+    for p, f in paths.items():
+        if os.path.dirname(p) in baddirs:
+            a = (tuple(attrs.get(f, ("ok", "ok", False))) + ("ok",) * 5)[:5]
+            attrs[f] = a[:4] + ("bad",)
+    for d_ in sorted(baddirs):
+        extra.append("chmod %s 750" % hx(d_))
     for p, f in paths.items():
         if f in [tuple(d) for d in dangling] and f[1] != 0:
             extra += ["rm %s" % hx(p), "symlink %s %s" % (hx(R + "/no/such/target"), hx(p))]
@@ -1460,7 +1469,7 @@ def scenario_events(x, ent, out, paths, K, rej=(), attrs=None, flags=None, malfo
     events = []
     faults = [{"f": list(f), "x": ["reject"]} for f in sorted(rej)] + [{"f": list(f), "x": ["malformed"]} for f in sorted(malformed)] + \
         [{"f": list(f), "x": ["dangling"]} for f in sorted(dangling) if f[1] != 0]
-    alist = [{"f": list(f), "own": a[0], "grp": a[1], "link": bool(a[2]), "perm": (tuple(a) + ("ok",))[3]} for f, a in sorted((attrs or {}).items())]
+    alist = [{"f": list(f), "own": a[0], "grp": a[1], "link": bool(a[2]), "perm": (tuple(a) + ("ok",) * 2)[3], "dperm": (tuple(a) + ("ok",) * 2)[4]} for f, a in sorted((attrs or {}).items())]
     fl = {"owner": bool((flags or {}).get("owner")), "group": bool((flags or {}).get("group")), "nosym": bool((flags or {}).get("nosym")),
           "perms": {0: "none", 1: "lenient", 2: "strict"}[int((flags or {}).get("perms") or 0)]}
     for n, (j, rd) in enumerate(reads):
